@@ -7,5 +7,6 @@ echo "== $wt ($prop)"
 git diff --stat -- ak | tail -1
 /venv/bin/python -c "import sys,os; sys.path.insert(0, os.getcwd()); import ak; assert ak.__file__.startswith(os.getcwd()); import pytest; sys.exit(pytest.main(['-q','-p','no:cacheprovider','tests']))" 2>&1 | tail -1
 timeout 600 /venv/bin/python seeded_out/demo.py >/dev/null 2>&1; echo "demo with change rc=$?"
-git stash -q && { timeout 600 /venv/bin/python seeded_out/demo.py >/dev/null 2>&1; echo "demo on original rc=$?"; git stash pop -q; }
+# (no git stash: the stash list is shared by all worktrees of a repository)
+git diff -- ak > /tmp/eval_seeded_$$.diff && git apply -R /tmp/eval_seeded_$$.diff && { timeout 600 /venv/bin/python seeded_out/demo.py >/dev/null 2>&1; echo "demo on original rc=$?"; git apply /tmp/eval_seeded_$$.diff; }; rm -f /tmp/eval_seeded_$$.diff
 cd /verif && AK_REPO="$wt" timeout 900 ./vcheck "$prop" --budget-s "$budget" 2>&1 | grep -E "violated:|VIOLATION|ERROR|runs=" | cut -c1-260 | head -6
